@@ -24,8 +24,6 @@ SCOPE = ("annotator", "tertiary", "parser", "common")
 CONSTANT_FIELDS = {"entity_id", "label", "auth", "model"}
 # arithmetic on residue numbers: named constructs with their reason (DESIGN.md §4 C05)
 NUMBER_ARITH_OK = {
-    ("tertiary", "Mapping2D3D.strands_sequences", "residue.number - previous.number - 1"): "gap placeholder count, reachable only with find_gaps=True (outside the statement's default path)",
-    ("tertiary", "Mapping2D3D.__generate_bpseq", "residue.number - previous.number - 1"): "gap placeholder count, reachable only with find_gaps=True",
     ("parser", "get_one_letter_name", "label.number - 1"): "mmCIF label_seq_id is by definition the 1-based index into the entity sequence (an index use, not the author numbering)",
 }
 
@@ -56,6 +54,105 @@ def _number_truthiness(fi):
         elif isinstance(n, (ast.If, ast.IfExp, ast.While)) and (is_number(n.test) or (isinstance(n.test, ast.UnaryOp) and isinstance(n.test.op, ast.Not) and is_number(n.test.operand))):
             out.append((n.test, "truthiness test of a residue number"))
     return out
+
+
+def gap_count_use(fn: ast.AST, root: ast.BinOp, par: dict, fm) -> "dict | None":
+    """Is the arithmetic expression `root` the number of gap placeholders between two consecutive residues?
+    The role, not the form: the core is `a.number - b.number - 1`; (b, a) are consecutive members of one sequence
+    (S[i-1] / S[i], zip(S, S[1:]), enumerate index j and S[j-1]); on the path both are known to be of one chain; the value is
+    used only as a count (range(), repetition of a constant string / list, comparison); reached only under self.find_gaps.
+    Returns None when the core has another form, else a description with the list of unmet conditions."""
+    from sa.flow import facts
+
+    core = root
+    use = None
+    if isinstance(root.op, ast.Mult):
+        for seq, cnt in ((root.left, root.right), (root.right, root.left)):
+            if (isinstance(seq, ast.Constant) and isinstance(seq.value, str)) or (isinstance(seq, (ast.List, ast.Tuple)) and all(isinstance(e, ast.Constant) for e in seq.elts)):
+                core, use = cnt, f"repetition of {norm(seq)}"
+    b = astq.match(core, "A_.number - B_.number - 1")
+    if not b or not isinstance(b["A_"], ast.Name) or not isinstance(b["B_"], ast.Name) or not isinstance(core, ast.BinOp):
+        return None
+    a_, b_ = b["A_"].id, b["B_"].id
+    problems = []
+    if use is None:
+        p = par.get(id(root))
+        if isinstance(p, ast.Call) and isinstance(p.func, ast.Name) and p.func.id == "range" and p.args == [root]:
+            use = "range()"
+        elif isinstance(p, ast.Compare):
+            use = "comparison"
+        else:
+            problems.append("its value is used other than as a count (range, repetition of a constant sequence, comparison)")
+    # consecutive members of one sequence
+    pair = None
+    for n in astq.walk_no_nested(fn):
+        if isinstance(n, (ast.For, ast.comprehension)) and isinstance(n.target, ast.Tuple):
+            names = [e.id if isinstance(e, ast.Name) else None for e in n.target.elts]
+            m = astq.match(n.iter, "zip(S_, S_[1:])")
+            if m and names == [b_, a_]:
+                pair = f"zip({norm(m['S_'])}, {norm(m['S_'])}[1:])"
+            m = astq.match(n.iter, "enumerate(S_)")
+            if m and len(names) == 2 and names[1] == a_ and names[0]:
+                d = [v for s2, v in astq.assignments(fn, b_) if v is not None]
+                if len(d) == 1 and norm(d[0]) == f"{norm(m['S_'])}[{names[0]} - 1]":
+                    pair = f"{norm(m['S_'])}[{names[0]} - 1], {norm(m['S_'])}[{names[0]}]"
+    if pair is None:
+        da = [v for s2, v in astq.assignments(fn, a_) if v is not None]
+        db = [v for s2, v in astq.assignments(fn, b_) if v is not None]
+        if len(da) == 1 and len(db) == 1:
+            ma, mb = astq.match(da[0], "S_[I_]"), astq.match(db[0], "S_[I_ - 1]")
+            if ma and mb and norm(ma["S_"]) == norm(mb["S_"]) and norm(ma["I_"]) == norm(mb["I_"]):
+                pair = f"{norm(mb['S_'])}[{norm(mb['I_'])} - 1], {norm(ma['S_'])}[{norm(ma['I_'])}]"
+    if pair is None:
+        problems.append(f"`{a_}` and `{b_}` are not shown to be consecutive members of one sequence")
+    st = fm.stmt_of(root)
+    fs = facts(fm.of(st).guards) if st is not None else []
+    if not any(norm(g.test) == "self.find_gaps" and g.polarity for g in fs):
+        problems.insert(0, "it is not guarded by self.find_gaps")
+    same = any((norm(g.test) in (f"{a_}.chain != {b_}.chain", f"{b_}.chain != {a_}.chain") and not g.polarity) or (norm(g.test) in (f"{a_}.chain == {b_}.chain", f"{b_}.chain == {a_}.chain") and g.polarity) for g in fs)
+    if not same:
+        problems.append("the two residues are not known to be of one chain at that point")
+    return {"core": norm(core), "pair": pair, "use": use, "problems": problems}
+
+
+def derived_atom_lists(fn: ast.AST) -> dict:
+    """Locals that hold the atoms of one residue in file order: bound to `<x>.atoms`, or to a comprehension / filter / list /
+    tuple / slice / reversed of such a sequence whose members are still the atoms (sorting by a key makes a position canonical
+    and ends the derivation)."""
+    derived: dict = {}
+
+    def is_src(e: ast.AST) -> bool:
+        if isinstance(e, ast.Attribute) and e.attr == "atoms":
+            return True
+        if isinstance(e, ast.Name) and (e.id in derived or e.id == "residue_atoms"):
+            return True
+        if isinstance(e, (ast.ListComp, ast.GeneratorExp)) and len(e.generators) == 1 and isinstance(e.generators[0].target, ast.Name) and isinstance(e.elt, ast.Name) and e.elt.id == e.generators[0].target.id:
+            t = e.generators[0].target.id
+            # a filter that pins one name (`atom.name == X`) leaves the atoms of that name: taking the first is find_atom's own rule
+            if any(astq.match(c, f"{t}.name == X_") is not None or astq.match(c, f"X_ == {t}.name") is not None for c in e.generators[0].ifs):
+                return False
+            return is_src(e.generators[0].iter)
+        if isinstance(e, ast.Call) and isinstance(e.func, ast.Name) and e.func.id in ("list", "tuple", "filter", "reversed") and e.args and not e.keywords:
+            return is_src(e.args[-1])
+        if isinstance(e, ast.Subscript) and isinstance(e.slice, ast.Slice):
+            return is_src(e.value)
+        return False
+
+    for _ in range(4):
+        n0 = len(derived)
+        for n in astq.walk_no_nested(fn):
+            if isinstance(n, (ast.Assign, ast.AnnAssign)) and n.value is not None:
+                t = n.targets[0] if isinstance(n, ast.Assign) else n.target
+                if isinstance(t, ast.Name) and t.id not in derived and t.id != "residue_atoms" and is_src(n.value) and not (isinstance(n.value, ast.Attribute)):
+                    derived[t.id] = n.value
+        if len(derived) == n0:
+            break
+    # a name that is also bound to something else is not reliably such a list
+    for name in list(derived):
+        others = [v for s, v in astq.assignments(fn, name) if v is not derived[name]]
+        if others:
+            del derived[name]
+    return derived
 
 
 def run(chk) -> None:
@@ -133,37 +230,64 @@ def run(chk) -> None:
                         f"`{norm(p) if isinstance(p, ast.Attribute) else norm(n)}` picks an atom by its position in the residue: the result changes when atoms are listed in another order",
                         K(fi, f"positional:{norm(n)}"),
                     )
-    chk.ok("positional-atom", "annotation path", f"{len(reach)} reachable functions scanned, {n_pos} positional accesses to atom sequences")
+    # lists derived from the atoms of one residue (comprehension, filter, list/tuple, slice, reversed - anything that keeps the file order):
+    # picking a member by its position in such a list is picking an atom by its position in the file
+    n_der = 0
+    for m, q in sorted(reach):
+        fi = repo.modules[m].funcs[q]
+        derived = derived_atom_lists(fi.node)
+        if not derived:
+            continue
+        par = astq.parents(fi.node)
+        for n in ast.walk(fi.node):
+            if isinstance(n, ast.Subscript) and not isinstance(n.slice, ast.Slice) and isinstance(n.value, ast.Name) and n.value.id in derived:
+                free = {x.id for x in ast.walk(n.slice) if isinstance(x, ast.Name)} - {n.value.id, "len"}
+                if free:
+                    continue  # indexed by something else (a loop counter, a name look-up): not a fixed position
+                n_der += 1
+                p = par.get(id(n))
+                ok = isinstance(p, ast.Attribute) and p.attr in CONSTANT_FIELDS
+                chk.expect(
+                    ok,
+                    "positional-atom",
+                    fi.site(n),
+                    f"`{norm(p) if p is not None else norm(n)}` reads a field that is the same for every atom of the residue",
+                    f"`{norm(n)}` picks an atom by its position in `{n.value.id}`, a list that keeps the order in which the atoms of the residue are listed (`{n.value.id} = {norm(derived[n.value.id])[:70]}`): the result changes when atoms are listed in another order",
+                    K(fi, f"positional:{norm(n)}"),
+                )
+    chk.ok("positional-atom", "annotation path", f"{len(reach)} reachable functions scanned, {n_pos} positional accesses to atom sequences, {n_der} to lists derived from them")
 
     # ---- residue numbers never in arithmetic -------------------------------------------------------------
+    from sa.flow import FlowMap, facts
+
     n_arith = 0
     for m, q in sorted(reach):
         fi = repo.modules[m].funcs[q]
+        par = None
+        fm = None
         for n in ast.walk(fi.node):
             if isinstance(n, ast.BinOp) and isinstance(n.op, (ast.Add, ast.Sub, ast.Mult, ast.Div, ast.FloorDiv, ast.Mod)):
                 uses = [x for x in ast.walk(n) if isinstance(x, ast.Attribute) and x.attr in ("number", "icode") and not (isinstance(x.value, ast.Name) and x.value.id in ("stem", "strand"))]
-                par = astq.parents(fi.node)
+                par = par or astq.parents(fi.node)
                 if uses and not isinstance(par.get(id(n)), ast.BinOp):
                     n_arith += 1
                     k = (m, q, norm(n))
                     if k in NUMBER_ARITH_OK:
                         chk.ok("identity-arithmetic", fi.site(n), f"`{norm(n)}`: named exception - {NUMBER_ARITH_OK[k]}")
-                    else:
+                        continue
+                    fm = fm or FlowMap(fi.node)
+                    gap = gap_count_use(fi.node, n, par, fm)
+                    if gap is None:
                         chk.violation("identity-arithmetic", fi.site(n), f"`{norm(n)}` does arithmetic on a residue number: the annotation changes under an order-preserving renumbering", K(fi, f"arith:{norm(n)}"))
-    chk.ok("identity-arithmetic", "annotation path", f"{n_arith} arithmetic uses of residue numbers, all named")
-    # gap count only under find_gaps
-    from sa.flow import FlowMap, facts
-
-    for (m, q, txt) in NUMBER_ARITH_OK:
-        if "find_gaps" not in NUMBER_ARITH_OK[(m, q, txt)]:
-            continue
-        fi = repo.func(m, q)
-        fm = FlowMap(fi.node)
-        for n in ast.walk(fi.node):
-            if isinstance(n, ast.BinOp) and norm(n) == txt:
-                st = fm.stmt_of(n)
-                fs = facts(fm.of(st).guards)
-                chk.expect(any(norm(g.test) == "self.find_gaps" and g.polarity for g in fs), "identity-arithmetic", fi.site(n), "the gap count is reached only when find_gaps is set", f"`{txt}` is no longer guarded by self.find_gaps: residue numbers enter the default annotation path", K(fi, "gap-unguarded"))
+                    elif gap["problems"]:
+                        if "find_gaps" in gap["problems"][0]:
+                            chk.violation("identity-arithmetic", fi.site(n), f"`{gap['core']}` is no longer guarded by self.find_gaps: residue numbers enter the default annotation path", K(fi, "gap-unguarded"))
+                        else:
+                            chk.violation("identity-arithmetic", fi.site(n), f"`{norm(n)}` looks like the gap placeholder count but {gap['problems'][0]}: it does arithmetic on a residue number", K(fi, f"arith:{norm(n)}"))
+                    else:
+                        chk.ok("identity-arithmetic", fi.site(n), f"`{gap['core']}`: number of gap placeholders between two consecutive residues ({gap['pair']}) of one chain, used only as a count ({gap['use']}), reached only when find_gaps is set (outside the statement's default path)")
+                        chk.ok("identity-arithmetic", fi.site(n), "the gap count is reached only when find_gaps is set")
+    chk.ok("identity-arithmetic", "annotation path", f"{n_arith} arithmetic uses of residue numbers, all named or recognised by their role")
     # ---- same-residue test by full identity (shared with C03/C11) ------------------------------------------
     c03.check_find_pairs(chk, parts=("contacts",))
     # ordering of residues compares (model, chain, number, icode) only
@@ -174,6 +298,9 @@ def run(chk) -> None:
         fields = [x.attr for x in ast.walk(rets[0]) if isinstance(x, ast.Attribute)] if rets else []
         ok = len(rets) == 1 and isinstance(rets[0].value, ast.Compare) and set(fields) <= {"model", "chain", "number", "icode"} and {"chain", "number", "icode"} <= set(fields)
         chk.expect(ok, "identity-order", fi.where, f"{cls} order compares (chain, number, icode) (and model) lexicographically", f"{cls}.__lt__ does not compare exactly (model,) chain, number, icode", K(fi, "lt"), found=sorted(set(fields)))
+    from checks import c11e
+
+    c11e.check_order_keys(chk, rule="identity-order")
     # ---- residue number / insertion code are optional values whose 0 / "" are legitimate: presence is tested with `is None`
     for m, cls in (("common", "Residue"), ("tertiary", "Residue3D"), ("common", "ResidueAuth"), ("common", "ResidueLabel")):
         for q, fi in sorted(repo.modules[m].funcs.items()):
